@@ -6,13 +6,14 @@ from harness import core, htmlnorm, treegen, trees, xdoc
 
 GEN = ['gen_tables', 'gen_regex', 'gen_config', 'gen_escapes']
 THEOREMS = ['C03_fragment_parses', 'C03_fragment_token_tree', 'C03_fragment_hypotheses', 'C03_fragment_fuel_suffices', 'C03_fragment_document',
+            'C03_fragment_html', 'C03_fragment_markdown_html', 'C03_fragment_html_instance',
             'C03_fragment_document_markdown', 'C03_fragment_document_configs', 'C03_bounded_trees', 'C03_family_is_not_vacuous']
 TRUSTED = ['harness/treegen.py: the tree grammar, the speller (every free choice drawn and counted) and the direct HTML writer - the independent oracle; '
            'harness/htmlnorm.py: CommonMark\'s test normalisation',
            'Spec/Spell.v: the Coq twin of the grammar for the kernel sweep (independent of the parser model)',
            'the pipeline model (tied by X-doc on the generated texts); vm_compute for the sweep']
 ASSUMPTIONS = ['unbounded theorem on a fragment: one-line plain paragraphs, fenced code blocks, quotes and single-item lists (all markers, padding 1-4), any size and depth, '
-               'two lists never adjacent siblings: the block tokenizer returns exactly the pre-token tree written from the tree (C03_fragment_parses), and Document(lines) - with the fuel it really gives, proved sufficient - holds exactly the token tree written from the tree under every renderer\'s token sets (C03_fragment_document, _markdown); the fragment '
+               'two lists never adjacent siblings: the block tokenizer returns exactly the pre-token tree written from the tree (C03_fragment_parses), and Document(lines) - with the fuel it really gives, proved sufficient - holds exactly the token tree written from the tree under every renderer\'s token sets (C03_fragment_document, _markdown), and the HTML renderer model writes for it exactly the HTML written directly from the tree, also when the text is one string (C03_fragment_html, C03_fragment_markdown_html); the fragment '
                'stream runs the same trees on the implementation',
                'PARTIAL beyond the fragment: in the kernel the HTML statement is bounded to the family stated in C03_bounded_trees; the full grammar is sampled on the implementation',
                'tables: default and left alignment are one value of the tree (the renderer writes align="left" for both); empty table bodies are not generated',
@@ -127,6 +128,26 @@ def frag_expect(t, ln):
     return [trees.TAGS['List'], start, loose, [[trees.TAGS['ListItem'], t[1], 0, len(t[1]) + t[2], loose, ds]]], [ln, ln] + ls
 
 
+def frag_html(t, tight):
+    """html_f of Proofs/FragmentHtml.v: the HTML written directly from a fragment tree"""
+    esc = lambda x: x.replace('&', '&amp;').replace('<', '&lt;').replace('>', '&gt;')
+    if t[0] == 'p':
+        return esc(t[1]) if tight else '<p>' + esc(t[1]) + '</p>'
+    if t[0] == 'f':
+        return '<pre><code>' + esc(''.join(l + '\n' for l in t[2])) + '</code></pre>'
+    kids = t[-1]
+    if t[0] == 'q':
+        return '<blockquote>\n' + '\n'.join(frag_html(k, False) for k in kids) + '\n</blockquote>'
+    tg = len(kids) <= 1
+    if len(t[1]) == 1:
+        op, cl = '<ul>', '</ul>'
+    else:
+        n = int(t[1][:-1])
+        op, cl = ('<ol>' if n == 1 else '<ol start="%d">' % n), '</ol>'
+    return (op + '\n<li>' + ('' if tg and kids[0][0] == 'p' else '\n') + '\n'.join(frag_html(k, tg) for k in kids)
+            + ('' if tg and kids[-1][0] == 'p' else '\n') + '</li>\n' + cl)
+
+
 def frag_worker(args):
     seed, depth = args
     rng = random.Random(seed)
@@ -139,10 +160,13 @@ def frag_worker(args):
             d = Document(text)
             got = trees.dump(d)[1]
             gl = trees.block_line_numbers(d)
+        import mistletoe
+        html = mistletoe.markdown(text)
     except Exception as e:
         return text, False, 'EXC %s: %s' % (type(e).__name__, e), None
-    ok = got == [want_tree] and gl == want_lines
-    return text, ok, (got, gl), ([want_tree], want_lines)
+    want_html = frag_html(t, False) + '\n'
+    ok = got == [want_tree] and gl == want_lines and html == want_html
+    return text, ok, (got, gl, html), ([want_tree], want_lines, want_html)
 
 
 def run(ctx, only=None):
